@@ -20,6 +20,7 @@ import (
 	"github.com/internetarchive/Zeno/internal/pkg/log"
 	"github.com/internetarchive/Zeno/internal/pkg/postprocessor/domainscrawl"
 	"github.com/internetarchive/Zeno/internal/pkg/stats"
+	"github.com/internetarchive/Zeno/internal/pkg/verifhook"
 	"github.com/internetarchive/Zeno/pkg/models"
 )
 
@@ -159,11 +160,14 @@ func (a *archiver) worker(workerID string) {
 			return
 		case <-controlChans.PauseCh:
 			logger.Debug("received pause event")
+			verifhook.At("pause.ack", "arch."+workerID)
 			controlChans.ResumeCh <- struct{}{}
+			verifhook.At("pause.resumed", "arch."+workerID)
 			logger.Debug("received resume event")
 		case seed, ok := <-a.inputCh:
 			if ok {
 				logger.Debug("received seed", "seed", seed.GetShortID(), "depth", seed.GetDepth(), "hops", seed.GetURL().GetHops())
+				verifhook.AtKV("arch.recv", seed.GetID(), "arch."+workerID, 0)
 
 				if err := seed.CheckConsistency(); err != nil {
 					panic(fmt.Sprintf("seed consistency check failed with err: %s, seed id %s", err.Error(), seed.GetShortID()))
@@ -174,6 +178,7 @@ func (a *archiver) worker(workerID string) {
 				} else {
 					archive(workerID, seed)
 				}
+				verifhook.At("arch.forward", seed.GetID())
 
 				select {
 				case <-a.ctx.Done():
@@ -216,6 +221,8 @@ func archive(workerID string, seed *models.Item) {
 			defer wg.Done()
 			defer func() { <-guard }()
 			defer stats.URLsCrawledIncr()
+			verifhook.AtKV("arch.item.start", seed.GetID(), item.GetURL().String(), 0)
+			defer func() { verifhook.AtKV("arch.item.end", seed.GetID(), item.GetURL().String(), int(item.GetStatus())) }()
 
 			var (
 				err          error
@@ -259,6 +266,7 @@ func archive(workerID string, seed *models.Item) {
 					client = globalArchiver.Client
 				}
 
+				verifhook.AtKV("arch.do", seed.GetID(), req.URL.String(), retry)
 				resp, err = client.Do(req)
 				if err != nil {
 					if retry < config.Get().MaxRetry {
@@ -345,7 +353,9 @@ func archive(workerID string, seed *models.Item) {
 			if !config.Get().WARCWriteAsync {
 				feedbackTime := time.Now()
 				// Waiting for WARC writing to finish
+				verifhook.AtKV("arch.feedback.wait", seed.GetID(), req.URL.String(), 0)
 				<-feedbackChan
+				verifhook.AtKV("arch.feedback.done", seed.GetID(), req.URL.String(), 0)
 				stats.MeanWaitOnFeedbackTimeAdd(time.Since(feedbackTime))
 			}
 
